@@ -95,6 +95,7 @@ fn main() {
         }
         "debug-reflect" => monitors::c13::debug_reflect(),
         "debug-dop853" => monitors::c01::debug_dop853(),
+        "debug-c01" => monitors::c01::debug_case(args[2].parse().unwrap(), args[3].parse().unwrap()),
         "debug-dae" => monitors::c15::debug_dae(),
         "debug-net" => monitors::c14::debug_net(args[2].parse().unwrap(), args[3].parse().unwrap()),
         "c20-expected" => {
